@@ -672,13 +672,15 @@ class World:
         newlines unless newline= says otherwise."""
         if any(c in mode for c in "wax+"):
             raise Unsupported("open() for writing")
-        data = self.vfs.read(str(path)).encode("utf-8")
+        # (a lone surrogate in the virtual text stands for a byte that is not UTF-8, the way os.fsdecode / surrogateescape
+        # spell it: on "disk" it is that byte, and a strict reader fails on it as the real one does)
+        data = self.vfs.read(str(path)).encode("utf-8", "surrogateescape")
         if "b" in mode:
             text = data
         else:
             try:
                 text = data.decode(encoding or "utf-8", errors or "strict")
-            except LookupError as e:
+            except (LookupError, UnicodeDecodeError) as e:
                 raise Raised(e)
             if newline is None:
                 text = text.replace("\r\n", "\n").replace("\r", "\n")
